@@ -9,10 +9,10 @@ import (
 )
 
 type cTok struct {
-	K    byte    // i ident, f function, @ at-keyword, # hash, s string, u url, n number, % percentage, d dimension, w whitespace, c delim, other: the punctuation itself ( ) [ ] { } : ; ,
-	S    string  // ident/function/at name (unescaped), string/url content (unescaped), delim char, hash name
-	Num  string  // number lexeme for n % d
-	Unit string  // dimension unit (as written)
+	K    byte   // i ident, f function, @ at-keyword, # hash, s string, u url, n number, % percentage, d dimension, w whitespace, c delim, other: the punctuation itself ( ) [ ] { } : ; ,
+	S    string // ident/function/at name (unescaped), string/url content (unescaped), delim char, hash name
+	Num  string // number lexeme for n % d
+	Unit string // dimension unit (as written)
 	Raw  string
 	Args []cTok // function arguments (between the parentheses), for K == 'f'
 }
